@@ -251,6 +251,8 @@ func propC10(w *World, r *Report) {
 	r.Floor("gidsort", 12)
 	checkNewGidOk(w, r, fns)
 	checkFDIndex(w, r)
+	RunStaleCopy(w, r, w.LibFuncs())
+	RunControl(r, "stalecopy", "ctlStaleCopy", RunStaleCopy)
 	RunFlagReduce(w, r, w.LibFuncs(), "library")
 	r.Floor("flagreduce", 25)
 	RunControl(r, "flagreduce", "ctlFlagReduce", func(cw *World, cr *Report, cf []*ssa.Function) { RunFlagReduce(cw, cr, cf, "controls") })
@@ -903,42 +905,80 @@ func RunFlagReduce(w *World, r *Report, fns []*ssa.Function, scopeName string) {
 // they must not be merged: the new index recorded for an old index is always
 // the position at which that dictionary is appended.
 func checkFDIndex(w *World, r *Report) {
-	r.Rule("fdindex: in SubsetCFF the new font-dictionary index recorded for an old index is the length of the subset's Private list at the moment that dictionary is appended — a fresh index for every distinct old index, never the index of another dictionary that happens to compare equal")
-	fn := w.Func("(*sfnt.subsetter).SubsetCFF")
-	if fn == nil {
-		r.Fatal("(*sfnt.subsetter).SubsetCFF does not resolve")
-		return
-	}
-	n := 0
-	for _, b := range fn.Blocks {
-		for _, in := range b.Instrs {
-			mu, ok := in.(*ssa.MapUpdate)
-			if !ok {
-				continue
-			}
-			mt, ok := mu.Map.Type().Underlying().(*types.Map)
-			if !ok || !isIntType(mt.Key()) || !isIntType(mt.Elem()) {
-				continue
-			}
-			n++
-			key := r.MkKey("fdindex", fnName(fn), "new index of a font dictionary")
-			good := false
-			if c, ok := mu.Value.(*ssa.Call); ok {
-				if bi, ok := c.Call.Value.(*ssa.Builtin); ok && bi.Name() == "len" {
-					if ld, ok := c.Call.Args[0].(*ssa.UnOp); ok && fieldName(ld.X) == "Private" {
-						good = true
+	r.Rule("fdindex: in the two CFF subsetters ((*sfnt.subsetter).SubsetCFF and (*cff.Outlines).Subset) the map that renumbers font dictionaries is keyed by the old font-dictionary index itself (an integer that comes from the FDSelect function, not a projection such as the private dictionary, which two font dictionaries with different font matrices can share), and the new index recorded is the length of the subset's Private list at the moment that dictionary is appended")
+	for _, name := range []string{"(*sfnt.subsetter).SubsetCFF", "(*cff.Outlines).Subset"} {
+		fn := w.Func(name)
+		if fn == nil {
+			r.Fatal("%s does not resolve", name)
+			continue
+		}
+		n := 0
+		for _, b := range fn.Blocks {
+			for _, in := range b.Instrs {
+				mu, ok := in.(*ssa.MapUpdate)
+				if !ok {
+					continue
+				}
+				mt, ok := mu.Map.Type().Underlying().(*types.Map)
+				if !ok || !isIntType(mt.Elem()) {
+					continue
+				}
+				// the renumbering map: its values are positions in a Private list
+				isLenPrivate := false
+				if c, ok := mu.Value.(*ssa.Call); ok {
+					if bi, ok := c.Call.Value.(*ssa.Builtin); ok && bi.Name() == "len" {
+						if ld, ok := c.Call.Args[0].(*ssa.UnOp); ok && fieldName(ld.X) == "Private" {
+							isLenPrivate = true
+						}
+					}
+				}
+				// ... and its keys are computed from what FDSelect returned
+				keyFromSel := false
+				for v := range backSlice(mu.Key) {
+					if c, ok := v.(*ssa.Call); ok {
+						if ld, ok := c.Call.Value.(*ssa.UnOp); ok && fieldName(ld.X) == "FDSelect" {
+							keyFromSel = true
+						}
+					}
+				}
+				if !keyFromSel {
+					continue
+				}
+				n++
+				key := r.MkKey("fdindex", fnName(fn), "new index of a font dictionary")
+				switch {
+				case !isLenPrivate:
+					r.Fail("fdindex", key, w.Pos(mu.Pos()), "the index recorded for an old font dictionary is not (only) the position where that dictionary is appended: two old dictionaries can end up sharing one new dictionary although they differ (e.g. in their font matrix)", nil)
+				case !isIntType(mt.Key()):
+					r.Fail("fdindex", key, w.Pos(mu.Pos()), "the renumbering map is keyed by "+mt.Key().String()+" instead of the old font-dictionary index: font dictionaries that share that object but differ otherwise (font matrix) are merged into one", nil)
+				default:
+					// the key comes from FDSelect, not from a field of the dictionary
+					fromSel, viaPrivate := false, false
+					for v := range backSlice(mu.Key) {
+						if c, ok := v.(*ssa.Call); ok {
+							if ld, ok := c.Call.Value.(*ssa.UnOp); ok && fieldName(ld.X) == "FDSelect" {
+								fromSel = true
+							}
+						}
+						if ia, ok := v.(*ssa.IndexAddr); ok {
+							if ld, ok := ia.X.(*ssa.UnOp); ok && (fieldName(ld.X) == "Private" || fieldName(ld.X) == "FontMatrices") {
+								viaPrivate = true
+							}
+						}
+					}
+					if fromSel && !viaPrivate {
+						r.OK("fdindex", key, w.Pos(mu.Pos()), "keyed by the old index, valued by the position at which the dictionary is appended")
+					} else {
+						r.Fail("fdindex", key, w.Pos(mu.Pos()), "the key of the renumbering map is not the value the FDSelect function returned for the glyph: distinct font dictionaries may share a key", nil)
 					}
 				}
 			}
-			if good {
-				r.OK("fdindex", key, w.Pos(mu.Pos()), "the position at which the dictionary is appended")
-			} else {
-				r.Fail("fdindex", key, w.Pos(mu.Pos()), "the index recorded for an old font dictionary is not (only) the position where that dictionary is appended: two old dictionaries can end up sharing one new dictionary although they differ (e.g. in their font matrix)", nil)
-			}
+		}
+		if n == 0 {
+			r.Fail("fdindex", r.MkKey("fdindex", fnName(fn), "new index of a font dictionary"), w.Pos(fn.Pos()), "no map from old to new font-dictionary indices found", nil)
 		}
 	}
-	r.Floor("fdindex", 1)
-	_ = n
+	r.Floor("fdindex", 2)
 }
 
 // runFlagReduceIn: the flagreduce rule (with its control) on the library
@@ -956,4 +996,168 @@ func runFlagReduceIn(w *World, r *Report, suffixes ...string) {
 	}
 	RunFlagReduce(w, r, fns, strings.Join(suffixes, ","))
 	RunControl(r, "flagreduce", "ctlFlagReduce", func(cw *World, cr *Report, cf []*ssa.Function) { RunFlagReduce(cw, cr, cf, "controls") })
+	RunStaleCopy(w, r, fns)
+	RunControl(r, "stalecopy", "ctlStaleCopy", RunStaleCopy)
+}
+
+// RunStaleCopy: `for i, r := range rules { ...; rules[i].n--; ...; if r.n ==
+// 0 {...} }` — r is a copy of the element taken when the iteration starts; a
+// field that the body updates through the slice is stale in the copy.  The
+// rule reports every read of a field from the range copy that can follow, in
+// the same iteration, a store to the same field of the same element.
+func RunStaleCopy(w *World, r *Report, fns []*ssa.Function) {
+	r.Rule("stalecopy: inside a loop no field is read from a by-value copy of a slice element (the range variable) after the same iteration has stored to that field of the element through the slice: the copy still holds the value from the start of the iteration")
+	for _, fn := range fns {
+		all := append([]*ssa.Function{fn}, fn.AnonFuncs...)
+		for _, f := range all {
+			if f.Blocks == nil {
+				continue
+			}
+			for _, l := range naturalLoops(f) {
+				// stores to S[i].k inside the loop
+				type site struct {
+					base, idx ssa.Value
+					field     int
+					st        *ssa.Store
+				}
+				var stores []site
+				for b := range l.body {
+					for _, in := range b.Instrs {
+						st, ok := in.(*ssa.Store)
+						if !ok {
+							continue
+						}
+						fa, ok := st.Addr.(*ssa.FieldAddr)
+						if !ok {
+							continue
+						}
+						ia, ok := fa.X.(*ssa.IndexAddr)
+						if !ok {
+							continue
+						}
+						stores = append(stores, site{ia.X, ia.Index, fa.Field, st})
+					}
+				}
+				if len(stores) == 0 {
+					continue
+				}
+				// copies kept in a local variable: *local = *(&S[i]); reads of local.k
+				for b := range l.body {
+					for _, in := range b.Instrs {
+						cp, ok := in.(*ssa.Store)
+						if !ok {
+							continue
+						}
+						local, ok := cp.Addr.(*ssa.Alloc)
+						if !ok {
+							continue
+						}
+						ld, ok := cp.Val.(*ssa.UnOp)
+						if !ok || ld.Op != token.MUL {
+							continue
+						}
+						ia, ok := ld.X.(*ssa.IndexAddr)
+						if !ok || local.Referrers() == nil {
+							continue
+						}
+						for _, ref := range *local.Referrers() {
+							fa, ok := ref.(*ssa.FieldAddr)
+							if !ok || fa.Referrers() == nil {
+								continue
+							}
+							for _, r2 := range *fa.Referrers() {
+								rd, ok := r2.(*ssa.UnOp)
+								if !ok || rd.Op != token.MUL || !l.body[rd.Block()] {
+									continue
+								}
+								for _, s := range stores {
+									if s.field != fa.Field || s.idx != ia.Index || !sameSliceValue(s.base, ia.X) {
+										continue
+									}
+									if !instrReaches(cp, s.st, l) || !instrReaches(s.st, rd, l) {
+										continue
+									}
+									fname := fieldName(fa)
+									key := r.MkKey("stalecopy", fnName(f), "field "+fname+" of the range copy")
+									r.Fail("stalecopy", key, w.Pos(rd.Pos()), "the field "+fname+" is read from the copy of the element made at "+w.Pos(cp.Pos())+" although the same iteration may have updated it through the slice at "+w.Pos(s.st.Pos())+": the test sees the old value", nil)
+								}
+							}
+						}
+					}
+				}
+				for b := range l.body {
+					for _, in := range b.Instrs {
+						fld, ok := in.(*ssa.Field)
+						if !ok {
+							continue
+						}
+						ld, ok := fld.X.(*ssa.UnOp)
+						if !ok || ld.Op != token.MUL {
+							continue
+						}
+						ia, ok := ld.X.(*ssa.IndexAddr)
+						if !ok {
+							continue
+						}
+						for _, s := range stores {
+							if s.field != fld.Field || s.idx != ia.Index || !sameSliceValue(s.base, ia.X) {
+								continue
+							}
+							// the copy was taken before the store, the read comes after it
+							if !instrReaches(ld, s.st, l) || !instrReaches(s.st, fld, l) {
+								continue
+							}
+							key := r.MkKey("stalecopy", fnName(f), "field "+fieldNameOfField(fld)+" of the range copy")
+							r.Fail("stalecopy", key, w.Pos(fld.Pos()), "the field "+fieldNameOfField(fld)+" is read from the copy of the element made at "+w.Pos(ld.Pos())+" although the same iteration may have updated it through the slice at "+w.Pos(s.st.Pos())+": the test sees the old value", nil)
+						}
+					}
+				}
+			}
+		}
+	}
+}
+
+func fieldNameOfField(f *ssa.Field) string {
+	if st, ok := f.X.Type().Underlying().(*types.Struct); ok && f.Field < st.NumFields() {
+		return st.Field(f.Field).Name()
+	}
+	return fmt.Sprint(f.Field)
+}
+
+func sameSliceValue(a, b ssa.Value) bool {
+	if a == b {
+		return true
+	}
+	la, ok1 := a.(*ssa.UnOp)
+	lb, ok2 := b.(*ssa.UnOp)
+	return ok1 && ok2 && la.X == lb.X
+}
+
+// instrReaches: b can be executed after a within one iteration of l.
+func instrReaches(a, b ssa.Instruction, l *natLoop) bool {
+	if a.Block() == b.Block() {
+		for _, in := range a.Block().Instrs {
+			if in == a {
+				return true
+			}
+			if in == b {
+				break
+			}
+		}
+	}
+	seen := map[*ssa.BasicBlock]bool{}
+	stack := append([]*ssa.BasicBlock{}, a.Block().Succs...)
+	for len(stack) > 0 {
+		x := stack[len(stack)-1]
+		stack = stack[:len(stack)-1]
+		if seen[x] || !l.body[x] || x == l.head {
+			continue
+		}
+		seen[x] = true
+		if x == b.Block() {
+			return true
+		}
+		stack = append(stack, x.Succs...)
+	}
+	return false
 }
